@@ -697,9 +697,9 @@ func regularFiles(es []Entry) []Entry {
 	return out
 }
 
-// afterPlant: an installation whose source is the directory just planted (or a file in it).
-// Not generated when the walk would chmod the only, non-executable, candidate: that changes the
-// source, here a directory of the plugin root, which the model does not follow (see corpus notes).
+// afterPlant: an installation whose source is the directory just planted (or a file in it),
+// also when its only candidate is not executable (Install then sets the bit on a file of the
+// plugin root - only after the name and the location of the source are accepted).
 func (g *gen) afterPlant(pl Op) (Op, bool) {
 	if !validPluginName(pl.Name) {
 		return Op{}, false
@@ -716,8 +716,9 @@ func (g *gen) afterPlant(pl Op) (Op, bool) {
 		}
 	}
 	isDir := g.chance(0.5)
-	if isDir && nExec == 0 && len(cands) == 1 {
-		isDir = false
+	if nExec == 0 && len(cands) == 1 {
+		isDir = g.chance(0.85)
+		g.c.Count(fmt.Sprintf("shape.in-root.lone-non-exec-candidate.dir=%v", isDir))
 	}
 	if !isDir && len(es) == 0 {
 		return Op{}, false
@@ -842,6 +843,36 @@ func (g *gen) regressionShapes() []Input {
 		// a hand-copied plugin reinstalled from its own directory
 		pl := Op{Kind: "plant", Name: "foo", Entries: []Entry{g.fileEntry("notation-foo", true, s2()), g.fileEntry("zlib.so", false, nil)}}
 		out = append(out, Input{Kind: "seq", Ops: []Op{pl, g.fromRoot("foo", pl.Entries, true, nil, ow, false)}})
+	}
+	// the in-root source holds a lone NON-executable candidate: nothing under the root may change
+	// before the name and the location are accepted (chmod used to happen while locating)
+	for _, ow := range []bool{false, true} {
+		for _, lnk := range []bool{false, true} {
+			// the plugin's own directory (hand-copied without the bit: it does not answer, and must keep not answering)
+			e := g.fileEntry("notation-foo", false, s2())
+			e.Gox = false
+			pl := Op{Kind: "plant", Name: "foo", Entries: []Entry{e, g.fileEntry("LICENSE", false, nil)}}
+			out = append(out, Input{Kind: "seq", Ops: []Op{pl, g.fromRoot("foo", pl.Entries, true, nil, ow, lnk),
+				g.simpleInstall("foo", "1.0.0", false, false)}})
+			// another plugin's directory: lower / higher than the installed foo 1.1.0
+			for _, v := range []string{"1.0.0", "2.0.0"} {
+				e := g.fileEntry("notation-foo", false, &Script{Name: "foo", Version: v, Valid: true})
+				pl := Op{Kind: "plant", Name: "bar", Entries: []Entry{e}}
+				out = append(out, Input{Kind: "seq", Ops: []Op{g.simpleInstall("foo", "1.1.0", false, true), pl,
+					g.fromRoot("bar", pl.Entries, true, nil, ow, lnk), {Kind: "uninstall", Name: "bar", Entries: []Entry{}}}})
+			}
+		}
+		// an odd name: <root>/x holds a lone non-executable notation-.. : refused, untouched
+		e := g.fileEntry("notation-..", false, &Script{Name: "..", Version: "1.0.0", Valid: true})
+		pl := Op{Kind: "plant", Name: "x", Entries: []Entry{e}}
+		out = append(out, Input{Kind: "seq", Ops: []Op{pl, g.fromRoot("x", pl.Entries, true, nil, ow, false)}})
+		// the binary was deleted, a non-executable notation-bar is left in <root>/foo: installs bar from there
+		first := g.simpleInstall("foo", "1.0.0", false, false)
+		first.SrcIsDir, first.SrcBase = true, "pkg"
+		nb := g.fileEntry("notation-bar", false, &Script{Name: "bar", Version: "1.0.0", Valid: true})
+		first.Entries = append(first.Entries, nb)
+		out = append(out, Input{Kind: "seq", Ops: []Op{first, {Kind: "rmexe", Name: "foo", Entries: []Entry{}},
+			g.fromRoot("foo", []Entry{nb}, true, nil, ow, false)}})
 	}
 	// "executable" means the owner execute bit: notation-foo with mode 0654 / 0610 / 0601 / 0655
 	for k := 0; k < 4; k++ {
